@@ -6,6 +6,11 @@ package verifsim
 
 import (
 	"context"
+	"os"
+	"crypto/sha256"
+	"encoding/hex"
+	"sort"
+	"strings"
 	"sync/atomic"
 	"errors"
 	"fmt"
@@ -15,6 +20,8 @@ import (
 
 	"github.com/atlassian/gostatsd"
 )
+
+var dbgHook func(kind string, r *HTTPReq)
 
 func init() { register("C16", func() Property { return c16{} }) }
 
@@ -87,19 +94,43 @@ var errWriteFailed = errors.New("write: broken pipe (simulated)")
 
 func (c16) Run(e *Env) {
 	e.ProbeDecl("kind-http", "kind-conn", "kind-cloudwatch", "kind-none", "http-retry", "lost-op-attributed-to-request", "http-client-timeout", "http-429-retry-after", "dial-refused", "write-error", "short-write",
-		"streams-queued-on-sender", "cancel-mid-flush", "cloudwatch-error", "several-batches-per-flush", "empty-flush", "second-stream-while-reconnecting")
+		"streams-queued-on-sender", "cancel-mid-flush", "cloudwatch-error", "several-batches-per-flush", "empty-flush", "second-stream-while-reconnecting", "siege")
 	kind := BackendKinds[e.Draw(len(BackendKinds))]
-	spec := BackendSpec{Kind: kind, BatchSize: []int{0, 1, 2, 3, 21}[e.Draw(5)], Compress: e.Bool(), MaxRequests: e.Draw(3), FlushInterval: time.Second}
+	spec := BackendSpec{Kind: kind, BatchSize: []int{0, 1, 2, 3, 21}[e.Draw(5)], Compress: e.Bool(), MaxRequests: e.Range(1, 4), FlushInterval: time.Second}
 	spec.RetryWindow = []time.Duration{0, 2 * time.Second, 5 * time.Second}[e.Draw(3)]
 	fab, conns, cw := NewFabric(), NewConnSim(), NewCWSim()
+	// request bodies are not byte-stable across executions (series order comes from Go map walks):
+	// identify a body by its decoded, sorted content
+	fab.KeyFn = func(r *HTTPReq) string {
+		if dbgHook != nil {
+			dbgHook(kind, r)
+		}
+		pts, err := DecodeHTTP(kind, r)
+		if err != nil {
+			return fmt.Sprintf("undecodable-%d", len(r.Body))
+		}
+		lines := make([]string, len(pts))
+		for i, p := range pts {
+			lines[i] = fmt.Sprintf("%s|%v|%s|%v|%s|%s|%s", p.Name, p.Tags, p.Host, p.Value, p.Type, p.Field, p.Str)
+		}
+		sort.Strings(lines)
+		h := sha256.Sum256([]byte(strings.Join(lines, "\n")))
+		return hex.EncodeToString(h[:6])
+	}
 	bb, err := BuildBackend(spec, fab, conns, cw)
 	if err != nil {
 		e.Failf("C16/harness", "BuildBackend(%+v): %v", spec, err)
 	}
 	e.Probe("kind-" + bb.Transport)
+	unstableConn := false
+	if spec.BatchSize > 1 && (strings.HasPrefix(kind, "influxdb") || strings.HasPrefix(kind, "otlp")) {
+		// which series share a request is decided by Go map walks inside the backend
+		e.Unstable("batch-composition-follows-map-order")
+	}
 	faults := !e.Chance(1, 4)
 	wb := &cbBackend{inner: bb.Backend, e: e}
-	cfg := W1Config{Readers: 1, Parsers: 1, Workers: e.Range(1, 3), Queue: 8, BatchSize: 1, Flush: time.Second,
+	cfg := W1Config{Readers: 1, Parsers: 1, Workers: e.Range(1, 3), Queue: 8, BatchSize: 1, Flush: 1300 * time.Millisecond, // not a divisor of the 10 s client timeout: a request issued at a tick never times out exactly at a later tick
+
 		ExpCounter: time.Hour, ExpGauge: time.Hour, ExpSet: time.Hour, ExpTimer: time.Hour, Percent: []float64{90},
 		Backends: []gostatsd.Backend{wb}}
 	if bb.Run != nil {
@@ -164,7 +195,7 @@ func (c16) Run(e *Env) {
 		any := false
 		for _, p := range fab.Gate.Parked() {
 			r := p.Arg.(*HTTPReq)
-			httpOK[r.Path+"|"+r.BodyHash] = true
+			httpOK[r.Path+"|"+r.Canon] = true
 			fab.Gate.Release(p, HTTPOutcome{Kind: "status", Status: okStatus})
 			any = true
 			e.Settle()
@@ -187,6 +218,15 @@ func (c16) Run(e *Env) {
 		return any
 	}
 	pass := func(d time.Duration) {
+		// the driver only ever acts at instants congruent to 137us modulo 1ms, so that timers armed by
+		// gostatsd in reaction to its actions never coincide with flush ticks (same-instant timers on
+		// different goroutines are ordered by the runtime, not by the tape)
+		target := time.Since(t0) + d
+		adj := 137*time.Microsecond - target%time.Millisecond
+		if adj < 0 {
+			adj += time.Millisecond
+		}
+		d += adj
 		for d > 0 {
 			sl := d
 			if !faults && sl > 200*time.Millisecond {
@@ -222,7 +262,7 @@ func (c16) Run(e *Env) {
 			if r.Attempt > 1 {
 				e.Probe("http-retry")
 			}
-			httpLast[r.Path+"|"+r.BodyHash] = r
+			httpLast[r.Path+"|"+r.Canon] = r
 		}
 	}
 
@@ -250,12 +290,33 @@ func (c16) Run(e *Env) {
 				pendingCalls++
 			}
 		}
+		if bb.Transport == "cloudwatch" && len(cwP) >= 2 {
+			e.Unstable("concurrent-put-metric-data-calls-numbered-by-arrival")
+		}
 		if bb.Transport == "conn" && pendingCalls >= 2 {
 			e.Probe("streams-queued-on-sender")
 			e.Overlap = true
+			if !unstableConn {
+				// the shards of one flush hand their streams to the single sender concurrently; the
+				// order in which they are written to the connection is the runtime's
+				unstableConn = true
+				e.Unstable("several-shards-queue-streams-on-one-sender")
+			}
+		}
+		if bb.Transport == "http" && len(reqP) >= spec.MaxRequests {
+			// more batches than request slots: which batches hold the slots was decided by goroutine
+			// start order inside the backend
+			e.Unstable("http-request-slots-saturated")
 		}
 		if len(reqP) >= 2 || len(writeP) >= 2 || len(cwP) >= 2 {
 			e.Probe("several-batches-per-flush")
+		}
+		if os.Getenv("C16_DEBUG") != "" {
+			var ks []string
+			for _, p := range reqP {
+				ks = append(ks, p.Key)
+			}
+			e.Event("DEBUG parked=%v pendingCalls=%d", ks, pendingCalls)
 		}
 		e.State("req=%d dial=%d write=%d cw=%d pending=%d", len(reqP), len(dialP), len(writeP), len(cwP), pendingCalls)
 		wCancel := 0
@@ -281,7 +342,7 @@ func (c16) Run(e *Env) {
 		case 3:
 			p := reqP[e.Choose("req", len(reqP))]
 			r := p.Arg.(*HTTPReq)
-			k := r.Path + "|" + r.BodyHash
+			k := r.Path + "|" + r.Canon
 			out := HTTPOutcome{Kind: "status", Status: okStatus}
 			if faults {
 				switch e.Weighted("http-outcome", []int{5, 1, 2, 1, 2}) {
@@ -304,7 +365,7 @@ func (c16) Run(e *Env) {
 			if out.Kind == "status" && out.Status == okStatus {
 				httpOK[k] = true
 			}
-			e.Event("request %s%s attempt %d -> %s %d", r.Host, r.Path, r.Attempt, out.Kind, out.Status)
+			e.Event("request %s%s %s attempt %d -> %s %d", r.Host, r.Path, r.Canon, r.Attempt, out.Kind, out.Status)
 			reqStep[r.N] = wb.step.Load()
 			fab.Gate.Release(p, out)
 		case 4:
@@ -384,6 +445,63 @@ func (c16) Run(e *Env) {
 		}
 		_ = before // (whether a cancelled request reports an error is not prescribed: cancellation is not a transport failure)
 		return
+	}
+
+	// ---- siege (HTTP, a third of the fault runs): the upstream answers every attempt with the same
+	// failure for longer than the retry window; every flush request pending at its start must complete
+	// (with an error) when the window ends - "for HTTP backends when delivery succeeds or their retry window ends".
+	if faults && bb.Transport == "http" && spec.BatchSize == 0 && e.Chance(1, 2) {
+		e.Settle()
+		wb.step.Store(int64(nSteps) + 5)
+		mode := e.Draw(4)
+		window := spec.RetryWindow
+		if window == 0 {
+			window = 15 * time.Second
+		}
+		siegeStart := time.Now()
+		pendingAtStart := map[int]bool{}
+		for _, c := range wb.snapshot() {
+			if c.cbs == 0 {
+				pendingAtStart[c.n] = true
+			}
+		}
+		// default batch size: one request per flush request; requests queue for the request slots and
+		// each gets its own retry window once it holds a slot
+		rounds := (len(pendingAtStart) + spec.MaxRequests - 1) / spec.MaxRequests
+		if rounds < 1 {
+			rounds = 1
+		}
+		siegeLen := time.Duration(rounds)*(window+2*time.Second) + 10*time.Second
+		e.Event("siege mode=%d window=%v pending=%d", mode, window, len(pendingAtStart))
+		for time.Since(siegeStart) < siegeLen {
+			e.Settle()
+			for _, p := range fab.Gate.Parked() {
+				var out HTTPOutcome
+				switch mode {
+				case 0:
+					out = HTTPOutcome{Kind: "status", Status: 429, Header: http.Header{"Retry-After": {"1"}}}
+				case 1:
+					out = HTTPOutcome{Kind: "status", Status: 503}
+				case 2:
+					out = HTTPOutcome{Kind: "conn-error"}
+				case 3:
+					out = HTTPOutcome{Kind: "status", Status: 429, Header: http.Header{"Retry-After": {"3"}}}
+				}
+				nFaults++
+				e.Fault("siege-" + []string{"429-retry-after-1", "503", "conn-error", "429-retry-after-3"}[mode])
+				reqStep[p.Arg.(*HTTPReq).N] = wb.step.Load()
+				fab.Gate.Release(p, out)
+				e.Settle()
+			}
+			pass(300 * time.Millisecond)
+		}
+		e.Settle()
+		for _, c := range wb.snapshot() {
+			if pendingAtStart[c.n] && c.cbs == 0 {
+				e.Failf("C16/retry-window-not-honoured", "%s: flush request %d was pending when the upstream started failing every attempt; %v later (retry window %v) it still has no completion callback", kind, c.n, time.Since(siegeStart), window)
+			}
+		}
+		e.Probe("siege")
 	}
 
 	// ---- settle: faults stop; everything succeeds at once
